@@ -6,7 +6,7 @@ SPEC = {
     "harness": "c08",
     "harness_args": {
         "quick": ["-cache", 120, "-ops", 50, "-hist", 12, "-batches", 9, "-queries", 12],
-        "thorough": ["-cache", 1500, "-ops", 70, "-hist", 60, "-batches", 14, "-queries", 14],
+        "thorough": ["-cache", 4000, "-ops", 70, "-hist", 200, "-batches", 14, "-queries", 14],
     },
     "timeout": {"quick": 600, "thorough": 3000},
     "level": "proof",
